@@ -547,6 +547,14 @@ func gen(r *hx.Rng, n int, tier string) []string {
 			continue
 		}
 		out = append(out, line(sB, kind, c0, ad, pt))
+		if i%3 == 2 {
+			// ... and an envelope around bytes that are NOT a key of the type (version 1): rejected
+			sBad := c01.EnvOver(k, a)
+			sBad.DEKEncoding = "ver1"
+			if cb, ok := sBad.Independent(r.Bytes(sBad.IVLen()), pt, ad); ok {
+				out = append(out, line(sB, "baddek.ver1", cb, ad, nil))
+			}
+		}
 		for _, mu := range mutations(r, sB, c0, ad, false, 1) {
 			out = append(out, line(sB, mu.kind, mu.c, mu.ad, nil))
 		}
